@@ -28,7 +28,12 @@ THEOREMS = {
             "Backend.C17_create_returns_existing",
             "Backend.C17_create_fresh_object", "Backend.C17_create_waits_for_erase", "Backend.C17_remove_busy_noop",
             "Backend.PC.FInv_runOps", "Obligations.BackendC.c17_structure",
-            "Obligations.BackendC.C17_erased_logger_has_no_record_extracted"],
+            "Obligations.BackendC.C17_erased_logger_has_no_record_extracted",
+            # audit gaps (a)-(d): Props/C17Destroy.lean
+            "Backend.C17_unreferenced_sink_destroyed", "Backend.C17_sink_destroyed_iff_unreferenced",
+            "Backend.C17_cleanup_reaps_released_sinks", "Backend.C17_erase_after_everything_popped",
+            "Backend.C17_erased_logger_statements_popped", "Backend.C17_recreate_after_removal",
+            "Backend.C17_ids_in_range", "Backend.PC.PR_runOps", "Backend.PC.FD_runOps"],
     "C07": ["Backend.C07_conservation", "Backend.C07_unregistered_empty", "Backend.C07_exit_drains",
             "Backend.C07_exit_flushes_last", "Backend.C07_exit_never_adds", "Backend.C07_pop_progress",
             "Backend.C07_exit_terminates_partial", "Backend.C07_exit_terminates", "Backend.C07_exit_drains_everything",
@@ -38,7 +43,7 @@ THEOREMS = {
 MODULES = {
     "C07": ["QuillModel.Props.C07Drain"],
     "C16": ["QuillModel.Props.C16"],
-    "C17": ["QuillModel.Props.C17", "QuillModel.Props.C17Removal"],
+    "C17": ["QuillModel.Props.C17", "QuillModel.Props.C17Removal", "QuillModel.Props.C17Destroy"],
     "C20": ["QuillModel.Props.C20", "QuillModel.Props.C20Shrink"],
 }
 OBLIG = ["QuillModel.Obligations.BackendC"]
